@@ -571,6 +571,38 @@ def insertDefaultWeight : Int := ({ia.defaults[1].value} : Int)
 """
     return text, ['_reduce group construction, overlap many-branch constants, merge accepted tuple and default, _disjoint scan arity, insert defaults']
 
+# ------------------------------------------------------------------------------------------------ Field._mul_scalar: branch bodies
+def generate_mul_scalar(repo):
+    """Gen/FieldMulScalar.lean: the two branches of `Field._mul_scalar` (the test is Gen.FieldDispatch.mulScalarSame):
+    `data = X.data * Y.data; offset = Z.offset` -> which operands are multiplied, in which order, and whose offset is kept
+    (0 = self, 1 = other); `data = []; offset = None` -> the empty product; `return data, offset`"""
+    import os
+    mod = ast.parse(open(os.path.join(repo, 'lentil/field.py')).read())
+    fn = [n for n in ast.walk(mod) if isinstance(n, ast.FunctionDef) and n.name == '_mul_scalar']
+    if len(fn) != 1: raise Refuse('field.py: _mul_scalar not found')
+    body = [s for s in fn[0].body if not (isinstance(s, ast.Expr) and isinstance(s.value, ast.Constant))]
+    if len(body) != 2 or not isinstance(body[0], ast.If) or ast.dump(body[1]) != ast.dump(ast.parse('return data, offset').body[0]):
+        raise Refuse('_mul_scalar: expected one if and `return data, offset`')
+    node = body[0]
+    if [ast.unparse(x) for x in node.orelse] != ['data = []', 'offset = None']: raise Refuse('_mul_scalar: empty branch changed')
+    who = {'self': 0, 'other': 1}
+    if len(node.body) != 2: raise Refuse('_mul_scalar: product branch changed')
+    d, o = node.body
+    def attr_of(e, a):
+        if isinstance(e, ast.Attribute) and e.attr == a and isinstance(e.value, ast.Name) and e.value.id in who: return who[e.value.id]
+        raise Refuse(f'_mul_scalar: expected <operand>.{a}: ' + ast.unparse(e)[:40])
+    if not (isinstance(d, ast.Assign) and ast.unparse(d.targets[0]) == 'data' and isinstance(d.value, ast.BinOp) and isinstance(d.value.op, ast.Mult)):
+        raise Refuse('_mul_scalar: data is not a product')
+    if not (isinstance(o, ast.Assign) and ast.unparse(o.targets[0]) == 'offset'): raise Refuse('_mul_scalar: offset statement changed')
+    fac = [attr_of(d.value.left, 'data'), attr_of(d.value.right, 'data')]
+    off = attr_of(o.value, 'offset')
+    text = f"""/-- translated from `field.py:_mul_scalar` (line {fn[0].lineno}): `data = X.data * Y.data` (0 = self, 1 = other) -/
+def mulScalarFactors : Nat × Nat := ({fac[0]}, {fac[1]})
+/-- translated from `field.py:_mul_scalar`: `offset = Z.offset` -/
+def mulScalarOffsetOf : Nat := {off}
+"""
+    return text, ['_mul_scalar: factors and kept offset of the product branch; empty branch and return checked structurally']
+
 FIELDDISPATCH = {
     # Field.__mul__: `if self.size == 1 and other.size == 1:` -> _mul_scalar, else _mul_array
     '__mul__#both_one': {'py_name': '__mul__', 'lean_name': 'mulBothOne', 'params': [('self', _SZ), ('other', _SZ)],
@@ -594,6 +626,7 @@ FIELDDISPATCH = {
 }
 
 MODULES = [
+    {'name': 'FieldMulScalar', 'src': 'lentil/field.py', 'generator': generate_mul_scalar, 'props': ['C06'], 'imports': []},
     {'name': 'FieldPublicFlow', 'src': 'lentil/field.py', 'generator': generate_public_flow, 'props': ['C06'], 'imports': []},
     {'name': 'FieldMergeOrigin', 'src': 'lentil/field.py', 'sigs': FIELDMERGEORIGIN, 'props': ['C06'], 'imports': []},
     {'name': 'FieldOverlapPair', 'src': 'lentil/field.py', 'generator': generate_overlap_pair, 'props': ['C06'], 'imports': ['LentilVerif.Gen.Extent']},
